@@ -96,6 +96,27 @@ _OPPOSITE = {ast.Eq: ast.NotEq, ast.NotEq: ast.Eq, ast.Is: ast.IsNot, ast.IsNot:
              ast.Lt: ast.GtE, ast.GtE: ast.Lt, ast.Gt: ast.LtE, ast.LtE: ast.Gt}
 
 
+def _resolved(e, env):
+    """e with every local that holds an opaque value (`seq = group.get_children()[0]`) replaced by the expression it was bound to: assumptions are
+    stated about what an expression computes, not about the local it happens to be kept in"""
+    import copy as _copy
+    hit = [False]
+
+    class R(ast.NodeTransformer):
+        def visit_Name(self, node):
+            v = env.get(node.id)
+            if isinstance(node.ctx, ast.Load) and isinstance(v, tuple) and len(v) >= 2 and v[0] == 'opaque' and isinstance(v[1], str):
+                try:
+                    new = ast.parse(v[1], mode='eval').body
+                except SyntaxError:
+                    return node
+                hit[0] = True
+                return new
+            return node
+    out = R().visit(_copy.deepcopy(e))
+    return out if hit[0] else None
+
+
 def eval_expr(e, env) -> tuple:
     assume = env.get('__assume__') or {}
     txt = None
@@ -103,6 +124,16 @@ def eval_expr(e, env) -> tuple:
         txt = unparse(e)
         if txt in assume:
             return ('const', assume[txt])
+        if assume and not isinstance(e, (ast.Name, ast.Constant)):
+            r_ = _resolved(e, env)
+            if r_ is not None:
+                rt_ = unparse(r_)
+                if rt_ in assume:
+                    return ('const', assume[rt_])
+                if isinstance(r_, ast.Compare) and len(r_.ops) == 1 and type(r_.ops[0]) in _OPPOSITE:
+                    alt = unparse(ast.Compare(left=r_.left, ops=[_OPPOSITE[type(r_.ops[0])]()], comparators=r_.comparators))
+                    if alt in assume:
+                        return ('const', not assume[alt])
         # the same atom written with the opposite comparison operator (`a != b` vs `a == b`, `x is not None` vs `x is None`, ...)
         if isinstance(e, ast.Compare) and len(e.ops) == 1 and type(e.ops[0]) in _OPPOSITE:
             alt = unparse(ast.Compare(left=e.left, ops=[_OPPOSITE[type(e.ops[0])]()], comparators=e.comparators))
